@@ -68,6 +68,13 @@ impl FileSystem for Vfs {
                 fs.destroy();
             }
 
+            // Forget the negotiated capabilities as well: a saved state derives
+            // "initialized" from them, so a restore after DESTROY must not come up
+            // initialized when this instance is not.
+            let mut opts = *self.opts.load().deref().deref();
+            opts.in_opts = FsOptions::empty();
+            self.opts.store(Arc::new(opts));
+
             self.initialized.store(false, Ordering::Release);
         }
     }
